@@ -297,3 +297,15 @@ def install(eng):
     M["np.log10"] = __import__("pyvc.models", fromlist=["unary_float"]).unary_float(flog10)
     M["scipy.integrate.cumulative_trapezoid"] = m_cumtrapz
     eng.methods.update({"max": m_arr_max, "min": m_arr_min})
+
+
+def install_defaults(eng):
+    """the models of this module for names the base models do not define (called for every engine; `install` overrides)"""
+    base = dict(eng.models)
+    bm = dict(eng.methods)
+    install(eng)
+    for k, v in base.items():
+        if v is not None:
+            eng.models[k] = v
+    for k, v in bm.items():
+        eng.methods[k] = v
